@@ -15,7 +15,7 @@
                       by ANY sequence of those effects, each of which may fail;
    * [check_load]     the registered load_* functions / md.open defaults as level-2 programs: every constructor
                       call is a mode-'r' call of a read-only constructor. *)
-From Coq Require Import List Bool Arith.
+From Coq Require Import List Bool Arith String.
 Import ListNotations.
 Require Import MD.Overwrite.Model.
 
@@ -67,3 +67,9 @@ Fixpoint check_save_append (p : sstmt) : bool :=
   | SIfOne a b | SSeq a b => check_save_append a && check_save_append b
   | SFor b => check_save_append b
   end.
+
+(* ------------------------------------------------------------------ every constructor call inside a save_* method
+   A purely syntactic census, independent of the control flow the level-2 translator can follow: what each call of a
+   file class inside Trajectory.save_* hands on as force_overwrite.  Safe: the caller's value, or the literal False. *)
+Definition farg_safe (f : farg) : bool := match f with FPass | FLit false => true | FLit true => false end.
+Definition check_saver_calls (l : list (string * farg)) : bool := forallb (fun x => farg_safe (snd x)) l.
